@@ -7,7 +7,7 @@
 (* on both sides.                                                          *)
 (***************************************************************************)
 EXTENDS G3DTransform, G3DMeasure, TLC, Json
-CONSTANTS KA, KB, BODIES, SEED, NSHARD
+CONSTANTS KA, KB, BODIES, SEED, NSHARD, NSHARDT, NBORING
 VARIABLES ph, a, b, T
 vars == <<ph, a, b, T>>
 IdT == MkT(<<1, 2, 3>>, <<1, 1, 1>>, 1, Zero3)
@@ -17,8 +17,10 @@ UB == UNION { FlatObjs(k, Box(1), 1) : k \in KB \cap FlatKinds } \cup { Translat
 Ts == { MkT(p, s, k, t) : p \in Perms3, s \in Signs3, k \in {1, 2, 3}, t \in {Zero3, <<1, -2, 3>>} }
 Compatible(x, y) == (x.k = "Vector") = (y.k = "Vector")
 Init == ph = 1 /\ a \in UA /\ b = NoneObj /\ T = IdT
-Next == \/ ph = 1 /\ ph' = 2 /\ a' = a /\ T' = T /\ b' \in { y \in UB : Compatible(a, y) /\ InShard(IF a.k = "Vector" THEN MkPoint(LP(a.v)) ELSE a, IF y.k = "Vector" THEN MkPoint(LP(y.v)) ELSE y, SEED, NSHARD) }
-        \/ ph = 2 /\ ph' = 3 /\ a' = a /\ b' = b /\ T' \in { t \in Ts : (Mix(MixV(MixV(t.k, t.perm), t.sg), SEED + Code(IF b.k = "Vector" THEN MkPoint(LP(b.v)) ELSE b)) % 12) = 0 }
+Next == \/ ph = 1 /\ ph' = 2 /\ a' = a /\ T' = T /\ b' \in { y \in UB : Compatible(a, y) /\ InShard(IF a.k = "Vector" THEN MkPoint(LP(a.v)) ELSE a, IF y.k = "Vector" THEN MkPoint(LP(y.v)) ELSE y, SEED,
+                                                       \* base cases whose operands do not meet are thinned out more
+                                                       IF a.k # "Vector" /\ a.k \in FlatKinds /\ y.k \in FlatKinds /\ InterAnalytic(a, y).k = "None" THEN NBORING ELSE NSHARD) }
+        \/ ph = 2 /\ ph' = 3 /\ a' = a /\ b' = b /\ T' \in { t \in Ts : (Mix(MixV(MixV(t.k, t.perm), t.sg), SEED + Code(IF b.k = "Vector" THEN MkPoint(LP(b.v)) ELSE b)) % NSHARDT) = 0 }
 Spec == Init /\ [][Next]_vars
 
 Ta == Transform(T, a)
